@@ -241,7 +241,9 @@ def gen_pt(rng):
             sends.append(max(0, s))
         else:
             sends.append(max(0, p_us - base_ms * 1000 + rng.randint(-3000000, 3000000)))
-    return "pt|%d,%d,%d,%d|%s|%d,%d" % (S, tries, timeout, maxt, ";".join("%d,%d" % (s // 1000000, s % 1000000) for s in sends),
+    # 30 %: usevc - every query sits on the server's one TCP connection; a timeout of the oldest must
+    # not end the attempts of the younger ones
+    return "pt|%d,%d,%d,%d%s|%s|%d,%d" % (S, tries, timeout, maxt, ",16" if rng.random() < 0.3 else "", ";".join("%d,%d" % (s // 1000000, s % 1000000) for s in sends),
                                           p_us // 1000000, p_us % 1000000)
 
 
